@@ -79,3 +79,55 @@ pub fn composite_frame(
         previous_frame_offset_y,
     );
 }
+
+// ------------------------------------------------------------------------------------------------
+// ALPH chunk (check c05)
+// ------------------------------------------------------------------------------------------------
+
+/// `extended::read_alpha_chunk` on an ALPH chunk payload: (filtering method 0..3, stored alpha values before
+/// un-filtering)
+pub fn read_alpha_chunk(payload: &[u8], width: u16, height: u16) -> Result<(u8, Vec<u8>), crate::DecodingError> {
+    let mut reader = std::io::Cursor::new(payload);
+    let chunk = crate::extended::read_alpha_chunk(&mut reader, width, height)?;
+    Ok((chunk.filtering_method as u8, chunk.data))
+}
+
+/// `extended::get_alpha_predictor` (filtering method given as its 2-bit code) on an RGBA buffer
+pub fn get_alpha_predictor(x: usize, y: usize, width: usize, filtering_method: u8, rgba: &[u8]) -> u8 {
+    use crate::extended::FilteringMethod;
+    let method = match filtering_method & 3 {
+        0 => FilteringMethod::None,
+        1 => FilteringMethod::Horizontal,
+        2 => FilteringMethod::Vertical,
+        _ => FilteringMethod::Gradient,
+    };
+    crate::extended::get_alpha_predictor(x, y, width, method, rgba)
+}
+
+/// The alpha plane of a still image exactly as `WebPDecoder::read_image` (decoder.rs) reconstructs it:
+/// `read_alpha_chunk`, then the in-place un-filtering loop over an RGBA buffer (same call pattern, same order),
+/// with the colour bytes of the buffer set to `colour_fill`.
+pub fn alpha_plane(payload: &[u8], width: u16, height: u16, colour_fill: u8) -> Result<Vec<u8>, crate::DecodingError> {
+    let mut reader = std::io::Cursor::new(payload);
+    let alpha_chunk = crate::extended::read_alpha_chunk(&mut reader, width, height)?;
+    let mut buf = vec![colour_fill; usize::from(width) * usize::from(height) * 4];
+
+    for y in 0..height {
+        for x in 0..width {
+            let predictor: u8 = crate::extended::get_alpha_predictor(
+                x.into(),
+                y.into(),
+                width.into(),
+                alpha_chunk.filtering_method,
+                &buf,
+            );
+
+            let alpha_index = usize::from(y) * usize::from(width) + usize::from(x);
+            let buffer_index = alpha_index * 4 + 3;
+
+            buf[buffer_index] = predictor.wrapping_add(alpha_chunk.data[alpha_index]);
+        }
+    }
+
+    Ok(buf.chunks_exact(4).map(|p| p[3]).collect())
+}
